@@ -284,7 +284,7 @@ def respell_label(t, label):
     return label.replace('ẞ', 'ss').replace('ß', 'SS') if ('ẞ' in label or 'ß' in label) else label.title() if label.title().casefold() == label.casefold() else label
 
 
-_EMPH_SYMS = ['a', 'a', 'b', ' ', ' ', '*', '*', '*', '_', '_', '.', ',', '(', ')', '\u00e9', '\u2014']
+_EMPH_SYMS = ['a', 'a', 'b', ' ', ' ', '*', '*', '*', '_', '_', '.', ',', '(', ')', '\u00e9', '\u2014', '\u20ac', '\u00a9', '\u2192']      # incl. symbols (category S: not punctuation)
 
 
 def gen_emph_src(t):
@@ -393,6 +393,10 @@ def outline_title(c):
                                                          '![i](s)', '<b>x</b>', '1. x', '# h', '- x', '> q', '\\*', '$x$', '[[a|b]]']), extra=0))
             else:
                 items.append(N('text', s=t.choice(TITLE_WORDS) + t.choice(['.', ',', ':', '!', '?', ';'])))
+            if t.chance(40):
+                # raw HTML around a word: the tags are not part of the heading's plain text
+                items += [N('html', raw=t.choice(['<kbd>', '<span class="k">', '<!-- c -->', '<b>'])), N('text', s=t.choice(TITLE_WORDS)),
+                          N('html', raw=t.choice(['</kbd>', '</span>', '<br/>', '</b>']))]
             continue
         if k == 0:
             w = N('em', children=[w])
@@ -403,6 +407,12 @@ def outline_title(c):
         elif k == 3:
             w = N('link', children=[w], dest='/url', title='', angle=False, tq=None, tsep=1)
         items.append(w)
+    if c.o.get('outline_rich'):
+        # a title neither starts nor ends with raw HTML (an HTML block start; edge spaces)
+        if items[0].kind == 'html':
+            items.insert(0, N('text', s=t.choice(TITLE_WORDS)))
+        if items[-1].kind == 'html':
+            items.append(N('text', s=t.choice(TITLE_WORDS)))
     return _respace(items)
 
 
